@@ -107,7 +107,10 @@ fn gen_stream(rng: &mut Rng, n: usize, max_lit: usize) -> Vec<Vec<u8>> {
     for _ in 0..n {
         if rng.chance(1, 4) {
             let len = match rng.range(0, 5) {
-                0 => 0,
+                0 => match vh_proto::srcdict::int_le(rng, max_lit as u64, 2) {
+                    Some(c) => c as usize,
+                    None => 0,
+                },
                 1 => rng.range(1, 64) as usize,
                 2 => rng.range(64, 9000) as usize,
                 3 => rng.range(8000, 70000) as usize % (max_lit + 1),
@@ -200,7 +203,10 @@ fn manual_history(ctx: &mut Ctx, rng: &mut Rng, thorough: bool) {
             1 => rng.range(1, 16) as usize,
             2 => rng.range(1, 600) as usize,
             3 => rng.range(500, 9000) as usize,
-            4 => 8192,
+            4 => match vh_proto::srcdict::int_le(rng, 1 << 20, 3) {
+                Some(c) if c > 0 => c as usize,
+                _ => 8192,
+            },
             _ => rng.range(1, 70000) as usize,
         };
         let k = std::cmp::min(k, stream.len() - pos);
@@ -598,6 +604,18 @@ fn run_all(seed: u64, thorough: bool, model: &str, shards: usize) -> Log {
                 }
                 for _ in 0..n / 2 {
                     framed_history(&mut ctx, &mut rng, thorough);
+                }
+                // directed passes: one per constant of /repo's sources that the baseline does not have
+                for (fo, _name) in vh_proto::srcdict::foci() {
+                    vh_proto::srcdict::with_focus(fo, || {
+                        for _ in 0..std::cmp::max(n / 6, 10) {
+                            manual_history(&mut ctx, &mut rng, thorough);
+                        }
+                        for _ in 0..std::cmp::max(n / 12, 5) {
+                            framed_history(&mut ctx, &mut rng, thorough);
+                        }
+                    });
+                    ctx.log.count("source-constant-pass");
                 }
                 ctx.flush();
                 total.lock().unwrap().merge(ctx.log);
